@@ -130,16 +130,23 @@ fn weighted(op: &Op) -> R {
             let a = build(&shape, ints.clone(), f_order);
             let w = Array1::from(wints.clone());
             let sums = a.weighted_sum_axis(Axis(axis), &w).map_err(|e| ("bulk-vs-single:weighted".to_string(), format!("weighted_sum_axis: {:?}", e)))?;
-            let means = a.weighted_mean_axis(Axis(axis), &w).map_err(|e| ("bulk-vs-single:weighted".to_string(), format!("weighted_mean_axis: {:?}", e)))?;
+            // integer division by a zero weight sum panics in the whole-array routine too:
+            // "equals" then means that both forms panic
+            let means = catch_unwind(AssertUnwindSafe(|| a.weighted_mean_axis(Axis(axis), &w))).ok().map(|r| r.map_err(|e| ("bulk-vs-single:weighted".to_string(), format!("weighted_mean_axis: {:?}", e))));
+            let means = match means {
+                Some(r) => Some(r?),
+                None => None,
+            };
             let wv = w.view();
             for (l, lane) in a.lanes(Axis(axis)).into_iter().enumerate() {
                 let s1 = lane.weighted_sum(&wv).unwrap();
-                let m1 = lane.weighted_mean(&wv).unwrap();
-                let (s2, m2) = (*sums.iter().nth(l).unwrap(), *means.iter().nth(l).unwrap());
+                let m1 = catch_unwind(AssertUnwindSafe(|| lane.weighted_mean(&wv).unwrap())).ok();
+                let s2 = *sums.iter().nth(l).unwrap();
+                let m2 = means.as_ref().map(|m| *m.iter().nth(l).unwrap());
                 if s1 != s2 || m1 != m2 {
                     return Err((
                         "bulk-vs-single:weighted".into(),
-                        format!("integer weighted_sum_axis/mean_axis(axis {}) lane {} = ({}, {}), the whole-array routines on that lane give ({}, {}) (lane {:?}, weights {:?})", axis, l, s2, m2, s1, m1, lane, w),
+                        format!("integer weighted_sum_axis/mean_axis(axis {}) lane {} = ({}, {:?}), the whole-array routines on that lane give ({}, {:?}) (None = panicked; lane {:?}, weights {:?})", axis, l, s2, m2, s1, m1, lane, w),
                     ));
                 }
             }
